@@ -3,12 +3,13 @@ Specs: specs/msc/Semaphore.tla (abstract two-dimensional semaphore with call / l
 model-checked at small scope for the time-free clauses), SemScenarios.tla (pattern S: TLC enumerates the
 driver scripts of acquire/try/release/terminate/sleep steps), SemContention.tla (second script family: the semaphore is
 filled, two or three callers with requests of different sizes block, releases free room that fits the oldest waiter, only
-a later one, several or none), SemaphoreTrace.tla (patterns T+L: validates
+a later one, several or none), SemLateWake.tla (third family: a caller with a finite timeout is woken late in its waiting
+time by releases that free too little, then nothing happens until well after its deadline), SemaphoreTrace.tla (patterns T+L: validates
 the call/ret/warn/settled lines recorded from the real DataSemaphore in real time, searching for
 linearization points and adding the time bounds: refusal by timeout within [timeout, timeout+slack];
 at every settled point nobody is in flight whose request fits, exceeds the capacity or is overdue;
 Processing() equals the specified held amount).
-A rejected scenario is executed once more (with a three times longer settle time) before it is reported;
+A rejected scenario is executed once more, alone and with the same step timing, before it is reported;
 if rejections do not reproduce too often the host is declared too noisy (exit 2)."""
 import json
 import random
@@ -23,6 +24,8 @@ SETTLE = 30
 def step_str(st):
     if st["fn"] == "acq":
         return "acq(%d,%d;%dms)" % (st["w"][0], st["w"][1], st["timeout"])
+    if st["fn"] == "sleep" and st["timeout"]:
+        return "sleep(%dms)" % st["timeout"]
     if st["fn"] in ("try", "rel"):
         return "%s(%d,%d)" % (st["fn"], st["w"][0], st["w"][1])
     return st["fn"]
@@ -72,8 +75,10 @@ def run(c):
                     workers=c.pick(2, 6), timeout=3000)
     rnd = random.Random(c.seed)
     # (module, cfg, {script length: sample size}; lengths not named are taken completely)
-    plan = c.pick([("MC_SemContention", "MC_SemContention_quick", {}), ("MC_SemScen", "MC_SemScen_q345", {4: 500, 5: 250})],
-                  [("MC_SemContention", "MC_SemContention_thorough", {}), ("MC_SemScen", "MC_SemScen_q345", {}),
+    plan = c.pick([("MC_SemContention", "MC_SemContention_quick", {}), ("SemLateWake", "SemLateWake_quick", {}),
+                   ("MC_SemScen", "MC_SemScen_q345", {4: 500, 5: 250})],
+                  [("MC_SemContention", "MC_SemContention_thorough", {}), ("SemLateWake", "SemLateWake_thorough", {}),
+                   ("MC_SemScen", "MC_SemScen_q345", {}),
                    ("MC_SemScen", "MC_SemScen_t4", {4: 4000})])
     scen = c.path("sem_scen.ndjson")
     enumerated = {}
@@ -108,11 +113,12 @@ def run(c):
     stats = json.loads(c.vh(["semrun", "-par", 48, "-settle", SETTLE, "-slack", SLACK, scen, trace]).stdout)
     c.log("executed on the real semaphore:", stats)
     for g in ("acquire_granted_at_once", "acquire_granted_after_waiting", "acquire_refused_after_waiting",
-              "acquire_refused_at_once", "warnings", "settled_with_blocked_caller", "settled_with_two_or_more_blocked_callers"):
+              "acquire_refused_at_once", "warnings", "settled_with_blocked_caller", "settled_with_two_or_more_blocked_callers",
+              "acquire_refused_after_being_woken_by_a_release"):
         c.guard(g, stats.get(g, 0))
     r = vlib.validate_scenarios(c, "msc", "SemaphoreTrace", trace, chunks=6, max_rej=c.pick(8, 40))
     c.log("trace validation: %d lines, %d scenarios, %d rejected" % (r["lines"], r["scenarios"], len(r["rejections"])))
-    # second opinion for every rejected scenario: run it again alone, with a longer settle time
+    # second opinion for every rejected scenario: run it again alone (same settle time: the scripts' timing matters)
     confirmed, noise, not_rerun = [], 0, 0
     confirmed_per_label = {}
 
@@ -122,7 +128,7 @@ def run(c):
         sp = c.path("sem_rerun_%d.ndjson" % i)
         tp = c.path("sem_rerun_trace_%d.ndjson" % i)
         vlib.ndjson_write(sp, [dict(cap=rej["scenario"][0]["cap"], script=script)])
-        c.vh(["semrun", "-par", 1, "-settle", 3 * SETTLE, "-slack", SLACK, sp, tp])
+        c.vh(["semrun", "-par", 1, "-settle", SETTLE, "-slack", SLACK, sp, tp])
         ok, rejline, _ = c.validate_trace("msc", "SemaphoreTrace", tp, heap="2g")
         rej2 = None
         if not ok:
